@@ -137,6 +137,7 @@ pub fn fuzz_gen(prop: &str, src: &mut crate::src::Src) -> Option<(&'static str, 
         "C09" => ("random-texts", c09::gen_case(src, 0)),
         "C10" => match k {
             0 => ("paragraphs", c10::gen_paragraphs(src, 0)),
+            1 => ("regions-and-origin", c10::gen_regions(src, 0)),
             _ => ("random-histories", c10::gen_random(src, 0)),
         },
         "C11" => match k {
